@@ -4,6 +4,7 @@ package monitors
 import (
 	"runtime"
 	"sync"
+	"time"
 
 	"verif/harness/internal/ev"
 )
@@ -48,4 +49,28 @@ func parallel(n int, fn func(w, i int)) {
 	}
 	close(next)
 	wg.Wait()
+}
+
+// registerChild registers a monitor whose whole body runs in a child process of the given
+// build variant: real clients run goroutines of their own, so a panic there cannot be
+// recovered in-process; the parent turns a dead child into a verdict.
+func registerChild(id, level, variant string, body func(r *ev.Run)) {
+	Legs[id+"main"] = func(args []string) {
+		r := ev.NewLeg(id)
+		body(r)
+		r.FinishLeg()
+	}
+	register(id, level, func(r *ev.Run) {
+		var env []string
+		if r.Only() != "" {
+			env = append(env, "VERIF_ONLY="+r.Only())
+		}
+		o := r.RunLeg(variant, id+"main", 90*time.Minute, env)
+		r.CrashViolation(o, id+" monitor process")
+		rule, floor := r.LegRule()
+		if !o.OK {
+			rule, floor = "the monitor's child process died; see the violation or the inconclusive reason", 0
+		}
+		r.Finish(rule, floor)
+	})
 }
